@@ -200,6 +200,7 @@ func writerPlans(run *vk.Run, seed int64) {
 		evs = append(evs, l...)
 	}
 	run.Add("writer_fault_plans", len(jobs))
+	run.Sample(map[string]interface{}{"generator": "writer-fault-plans", "tlc_case": lines[len(lines)/2]})
 	dir, err := os.MkdirTemp("", "c13t-")
 	if err != nil {
 		vk.Infra("%v", err)
